@@ -9,7 +9,9 @@ seed = int(sys.argv[2]) if len(sys.argv) > 2 else 0
 rng = random.Random(seed * 1000003 + 17)
 cases = P.gen(rng, "quick")[: int(os.environ.get("N", "300"))]
 for i, c in enumerate(cases): c["id"] = i
-o = driver.evaluate(P, os.path.join(V.TARGET, "debug", "vh"), cases)
+hb = V.build_harness()
+assert hb["ok"], hb["out"]
+o = driver.evaluate(P, hb["bin"], cases)
 print("problems", o.problems[:3])
 known = {k["class"] for k in V.known_findings(P.id)}
 n = 0
